@@ -489,6 +489,9 @@ func (m *Message) Answer(resultCode uint32) *Message {
 		m.Header.EndToEndID,
 		m.Dictionary(),
 	)
+	// NewMessage replaces zero ids with random ones; an answer mirrors the request.
+	nm.Header.HopByHopID = m.Header.HopByHopID
+	nm.Header.EndToEndID = m.Header.EndToEndID
 	if resultCode != 0 {
 		nm.NewAVP(avp.ResultCode, avp.Mbit, 0, datatype.Unsigned32(resultCode))
 	}
